@@ -10,6 +10,7 @@ import (
 
 	"github.com/tetratelabs/wazero"
 	"github.com/tetratelabs/wazero/api"
+	"github.com/tetratelabs/wazero/experimental"
 	"github.com/tetratelabs/wazero/verifharness/core"
 	"github.com/tetratelabs/wazero/verifharness/wenc"
 )
@@ -24,6 +25,7 @@ type echoCase struct {
 	SignMask uint32 `json:"sign_mask"` // reflect styles: bit i = param i signed, bit 16+j = result j signed ("u" styles use the complement)
 	Class    string `json:"class"`
 	Conc     bool   `json:"conc,omitempty"`  // additionally two goroutines calling concurrently (race flavour)
+	Tail     bool   `json:"tail,omitempty"`  // tail-call feature on; tail-call forms of the wrappers (extra wrapper params derived from Seed)
 	Mixed    bool   `json:"mixed,omitempty"` // guest with a mixed import section and a decoy type 0 (mixed.go); run after a plain control
 }
 
@@ -44,6 +46,8 @@ type caseResult struct {
 	Reentries    int64            `json:"reentries"`
 	ConcCalls    int64            `json:"conc_calls,omitempty"`
 	MixedCalls   int64            `json:"mixed_calls,omitempty"` // calls through a guest with a mixed import section
+	TailCalls    int64            `json:"tail_calls,omitempty"`  // calls through return_call / return_call_indirect wrappers
+	TailShape    string           `json:"tail_shape,omitempty"`  // wrapper params x results, and whether the stack-param + stack-result cliff is crossed
 	UpperHost    int64            `json:"upper_host,omitempty"`  // 32-bit params whose slot upper half was non-zero at the host (allowed)
 	UpperGo      int64            `json:"upper_go,omitempty"`    // 32-bit results whose slot upper half was non-zero at Go (allowed)
 	UpperGoBy    map[string]int64 `json:"upper_go_by,omitempty"`
@@ -273,6 +277,13 @@ func (x *engineRun) flush(col *collector, sc *script, ci callInfo) {
 	for i := range sc.problems {
 		p := &sc.problems[i]
 		sig := x.sigOf(p)
+		if isTailFn(ci.fn) {
+			// the ordinary wrappers ran first: what they show too is not a tail-call matter
+			if col.seen[sig] {
+				continue
+			}
+			sig = "tail-call:" + mixedSig(sig)
+		}
 		if col.seen[sig] {
 			continue
 		}
@@ -464,6 +475,36 @@ func (x *engineRun) styleCalls(col *collector, seq bool, si int, styles []string
 	}
 }
 
+// tailCalls: the tail-call forms of the wrappers of one style, from Go (both
+// forms) and from a judging guest function.
+func (x *engineRun) tailCalls(col *collector, si int, styles []string) {
+	s := x.spec
+	st := styleByName(styles[si])
+	rMask := plusMask(s.R)
+	eArgs := flatten(s.E, s.EV)
+	for k := 0; k < s.K; k++ {
+		pv, rv := x.resolve(s.P, s.PV[k]), x.resolve(s.R, s.RV[(k+2)%s.K])
+		name := "t_" + st.Name
+		if k%2 == 1 {
+			name = "ti_" + st.Name
+		}
+		sc := &script{exp: []*expect{{Style: st.Name, Params: pv, Results: rv}}}
+		before := col.calls
+		x.top(col, true, x.guest, name, k%4 < 2, k, append(append([]uint64(nil), eArgs...), flatten(s.P, pv)...), s.R, rv, false, false, st, sc)
+		if k < 4 {
+			rvk := x.resolve(s.R, s.RV[k])
+			sc = &script{exp: []*expect{{Style: st.Name, Params: pv, Results: rvk}}}
+			x.top(col, true, x.guest, fmt.Sprintf("tj_%s_%d", st.Name, k), k%2 == 0, k, extArgs(s.P, pv), rMask,
+				append(append([]val(nil), rvk...), val{}), true, false, st, sc)
+		}
+		x.res.TailCalls += col.calls - before
+	}
+}
+
+func isTailFn(n string) bool {
+	return strings.HasPrefix(n, "t_") || strings.HasPrefix(n, "ti_") || strings.HasPrefix(n, "tj_")
+}
+
 // guestCalls: exported guest-defined functions called from Go through both forms.
 func (x *engineRun) guestCalls(col *collector, seq bool, lo, hi int) {
 	s := x.spec
@@ -492,6 +533,9 @@ func (x *engineRun) run(wasm []byte, styles []string) {
 		cfg = wazero.NewRuntimeConfigInterpreter()
 	} else {
 		cfg = wazero.NewRuntimeConfigCompiler()
+	}
+	if x.spec.Tail {
+		cfg = cfg.WithCoreFeatures(api.CoreFeaturesV2 | experimental.CoreFeaturesTailCall)
 	}
 	rt := wazero.NewRuntimeWithConfig(ctx, cfg)
 	defer rt.Close(ctx)
@@ -535,6 +579,11 @@ func (x *engineRun) run(wasm []byte, styles []string) {
 		x.styleCalls(x.col, true, si, styles, 0, K)
 	}
 	x.guestCalls(x.col, true, 0, K)
+	if x.spec.Tail {
+		for si := range styles {
+			x.tailCalls(x.col, si, styles)
+		}
+	}
 	if x.tc.Conc && !hasType(x.spec.P, wenc.FuncRef) && !hasType(x.spec.R, wenc.FuncRef) {
 		// two goroutines, each with its own api.Function objects and its own
 		// script carried by the context; only styles that receive the context.
@@ -614,6 +663,7 @@ func runCase(tc *echoCase) *caseResult {
 	a.MaskTests += b.MaskTests
 	a.Reentries += b.Reentries
 	a.MixedCalls = b.Calls
+	a.TailCalls += b.TailCalls
 	if b.Engines != 2 {
 		a.Engines = b.Engines
 	}
@@ -653,6 +703,11 @@ func runCase1(tc *echoCase) *caseResult {
 	spec.RV = genVectors(r, R, tc.K, int(tc.Seed%5)+3)
 	spec.Styles = stylesFor(P, R)
 	res.Styles = spec.Styles
+	if tc.Tail {
+		spec.Tail = true
+		spec.E, spec.EV = tailExtras(tc.Seed)
+		res.TailShape = tailShape(spec)
+	}
 	for k := 0; k < tc.K; k++ {
 		for i, t := range P {
 			res.Classes["param "+valueClass(t, spec.PV[k][i])]++
@@ -686,4 +741,66 @@ func child(mode string, in json.RawMessage) any {
 		return &caseResult{Inconclusive: "bad-case"}
 	}
 	return runCase(&tc)
+}
+
+// tailExtras: the extra leading parameters of the tail-call wrappers: 0..12
+// values of the integer or of the float class (biased to 7..12, where the
+// wrapper gets stack-passed parameters), a few of the other class mixed in.
+func tailExtras(seed uint64) ([]T, []val) {
+	r := core.NewRng(int64(seed), 90)
+	n := r.Intn(13)
+	if r.Bool() {
+		n = 7 + r.Intn(6)
+	}
+	floats := r.Bool()
+	ts := make([]T, n)
+	vs := make([]val, n)
+	for i := range ts {
+		fl := floats
+		if r.Chance(1, 8) {
+			fl = !fl
+		}
+		if fl {
+			ts[i] = []T{wenc.F64, wenc.F32}[r.Intn(2)]
+		} else {
+			ts[i] = []T{wenc.I64, wenc.I32}[r.Intn(2)]
+		}
+		vs[i] = genVal(r, ts[i], r.Intn(nEdge), i, 0)
+	}
+	return ts, vs
+}
+
+func classCount(ts []T) (ints, floats int) {
+	for _, t := range ts {
+		switch t {
+		case wenc.F32, wenc.F64, wenc.V128:
+			floats++
+		default:
+			ints++
+		}
+	}
+	return
+}
+
+// tailShape says whether the wrapper has stack-passed parameters (amd64: more
+// than 7 integer/reference or 8 float parameters) while the callee has none, and
+// whether the results go beyond the result registers (9 integer, 8 float).
+func tailShape(s *guestSpec) string {
+	wi, wf := classCount(append(append([]T(nil), s.E...), s.P...))
+	pi, pf := classCount(s.P)
+	ri, rf := classCount(s.R)
+	out := "other"
+	if (wi > 7 || wf > 8) && pi <= 7 && pf <= 8 {
+		switch {
+		case ri > 9 && rf > 8:
+			out = "wrapper-stack-params+callee-reg-params+stack-results-int+float"
+		case ri > 9:
+			out = "wrapper-stack-params+callee-reg-params+stack-results-int"
+		case rf > 8:
+			out = "wrapper-stack-params+callee-reg-params+stack-results-float"
+		default:
+			out = "wrapper-stack-params+callee-reg-params+reg-results"
+		}
+	}
+	return out
 }
